@@ -22,7 +22,7 @@ from props import c02
 
 PID = 'C04'
 TRANSLATORS = ['xsd_table']
-LEAN_MODULES = ['Pyc.Model.Schema']
+LEAN_MODULES = ['Pyc.Model.Sync', 'Pyc.Model.Schema']
 LEAN_PROPS = ['Pyc.Props.C04', 'Pyc.Props.C04b', 'Pyc.Props.C04c']
 META = dict(
     level_text=('Proof of the per-element emission theorems over content models translated from the shipped XSD on every run + independent validation. '
@@ -287,6 +287,48 @@ def child_lines(data):
     return lines, actual
 
 
+def instmat_case(rng):
+    """the real MaterialNode.save on an <instance_material> loaded with `bind`s, vertex input bindings and extras, after its inputs were edited.
+    Returns (sync request for drv/C02, expected names by the request's labels, names written)"""
+    import collada
+    nb, ni, ne = rng.choice([0, 0, 1, 2]), rng.randint(0, 3), rng.choice([0, 1, 1, 2])
+    kids = ''.join('<bind semantic="S%d" target="n/t"/>' % i for i in range(nb)) \
+        + ''.join('<bind_vertex_input semantic="UV%d" input_semantic="TEXCOORD" input_set="%d"/>' % (i, i) for i in range(ni)) \
+        + '<extra><technique profile="T"><a>1</a></technique></extra>' * ne
+    xml = ('<COLLADA xmlns="%s" version="1.4.1"><asset><created>2001-01-01T00:00:00</created><modified>2001-01-01T00:00:00</modified></asset>'
+           '<library_effects><effect id="fx"><profile_COMMON><technique sid="common"><phong/></technique></profile_COMMON></effect></library_effects>'
+           '<library_materials><material id="mat"><instance_effect url="#fx"/></material></library_materials>'
+           '<library_geometries><geometry id="g"><mesh><source id="p"><float_array id="pa" count="9">0 0 0 1 0 0 0 1 0</float_array><technique_common>'
+           '<accessor source="#pa" count="3" stride="3"><param name="X" type="float"/><param name="Y" type="float"/><param name="Z" type="float"/></accessor>'
+           '</technique_common></source><vertices id="v"><input semantic="POSITION" source="#p"/></vertices><triangles count="1" material="m">'
+           '<input semantic="VERTEX" source="#v" offset="0"/><p>0 1 2</p></triangles></mesh></geometry></library_geometries>'
+           '<library_visual_scenes><visual_scene id="vs"><node id="n"><instance_geometry url="#g"><bind_material><technique_common>'
+           '<instance_material symbol="m" target="#mat">%s</instance_material></technique_common></bind_material></instance_geometry></node>'
+           '</visual_scene></library_visual_scenes><scene><instance_visual_scene url="#vs"/></scene></COLLADA>' % (NS[1:-1], kids))
+    doc = collada.Collada(io.BytesIO(xml.encode()))
+    mn = doc.scene.nodes[0].children[0].materials[0]
+    how = rng.choice(['keep', 'append', 'insert', 'clear', 'replace', 'pop'])
+    if how == 'append':
+        mn.inputs.append(('NEW', 'TEXCOORD', '7'))
+    elif how == 'insert':
+        mn.inputs.insert(0, ('NEW0', 'TEXCOORD', '8'))
+    elif how == 'clear':
+        del mn.inputs[:]
+    elif how == 'replace':
+        mn.inputs = [('R%d' % i, 'TEXCOORD', str(i)) for i in range(rng.randint(0, 3))]
+    elif how == 'pop' and mn.inputs:
+        mn.inputs.pop()
+    changed = [tuple(i) for i in mn.inputs] != [('UV%d' % i, 'TEXCOORD', str(i)) for i in range(ni)]
+    doc.save()
+    im = next(doc.xmlnode.getroot().iter(NS + 'instance_material'))
+    got = [c.tag[len(NS):] for c in im]
+    B, I, E = list(range(1, nb + 1)), list(range(20, 20 + ni)), list(range(40, 40 + ne))
+    W = list(range(60, 60 + len(mn.inputs))) if changed else I
+    label = dict([(b, 'bind') for b in B] + [(i, 'bind_vertex_input') for i in I + W] + [(e, 'extra') for e in E])
+    line = 'sync %s ; %s ; %s ; %s' % (' '.join(map(str, I + W)) or '0', ' '.join(map(str, W)), ' '.join(map(str, B + I + E)), E[0] if E else '_')
+    return line, label, got, how
+
+
 SHADER_ORDER = ['emission', 'ambient', 'diffuse', 'specular', 'shininess', 'reflective', 'reflectivity', 'transparent', 'transparency', 'index_of_refraction']
 SCALARS = ('shininess', 'reflectivity', 'transparency', 'index_of_refraction')
 
@@ -398,6 +440,28 @@ def run(ctx):
     if ctx.lean_ok:
         from props import c04_trees
         c04_trees.run(ctx, docs[:ctx.n(60, 800)], child_lines, reported)
+        # MaterialNode.save and the place of the vertex input bindings (C02.sync_block, C04c.instance_material_valid)
+        il, ilab, igot, ikey = [], [], [], []
+        for i in range(ctx.n(120, 2500)):
+            key = 'c04i/%s/%d' % (ctx.rng.randrange(10 ** 9), i)
+            try:
+                l, lab, got, how = instmat_case(random.Random(key))
+            except Exception as e:
+                core.note_skip('c04:instmat-case', e)
+                continue
+            ctx.count('emit:instance_material:' + how)
+            order = sorted(got, key=lambda k: ('bind', 'bind_vertex_input', 'extra').index(k) if k in ('bind', 'bind_vertex_input', 'extra') else 9)
+            if got != order and 'instmat-order' not in reported:
+                reported.add('instmat-order')
+                ctx.violation('c04:invalid:instance_material-order', 'after the inputs of a loaded material binding were edited (%s) MaterialNode.save leaves the children %s in '
+                              '<instance_material>; the schema asks for bind*, bind_vertex_input*, extra*' % (how, got), dict(kind='instmat', key=key))
+            il.append(l); ilab.append(lab); igot.append(got); ikey.append(key)
+        for l, lab, got, key, m in zip(il, ilab, igot, ikey, ctx.driver('C02', il) if il else []):
+            names = [lab.get(int(x), '?') for x in m.split()]
+            if names != got and 'corr:instmat' not in reported and 'instmat-order' not in reported:
+                reported.add('corr:instmat')
+                ctx.violation('corr:instmat', 'MaterialNode.save leaves %s in <instance_material>, Pyc.Sync.syncChildren on %r gives %s' % (got, l, names),
+                              dict(kind='instmat', key=key), found_input=False)
         # Effect.save and the place of the shader element (Pyc.Schema.saveTechnique, Props/C04c.save_technique_valid)
         tl, ta, tk = [], [], []
         for i in range(ctx.n(150, 3000)):
@@ -424,6 +488,10 @@ def run(ctx):
 
 
 def replay(ctx, rep):
+    if rep.get('kind') == 'instmat':
+        l, lab, got, how = instmat_case(random.Random(rep['key']))
+        print('  after %s: children of <instance_material>: %s' % (how, got))
+        return got != sorted(got, key=lambda k: ('bind', 'bind_vertex_input', 'extra').index(k) if k in ('bind', 'bind_vertex_input', 'extra') else 9)
     if rep.get('kind') == 'technique':
         try:
             l, a = technique_case(random.Random(rep['key']))
